@@ -202,6 +202,8 @@ class OperatorAnd(OperatorBase):
     
     def operate_binary(self, tokens):
         left, right = tokens.get_left(), tokens.get_right()
+        if left is None or right is None or isinstance(right, OperatorBase):
+            raise Exception("Missing operand of operator", self.symbol)
         tokens.put_left(left.logical_and(right))
 
 class OperatorOr(OperatorBase):
@@ -210,6 +212,8 @@ class OperatorOr(OperatorBase):
     
     def operate_binary(self, tokens):
         left, right = tokens.get_left(), tokens.get_right()
+        if left is None or right is None or isinstance(right, OperatorBase):
+            raise Exception("Missing operand of operator", self.symbol)
         tokens.put_left(left.logical_or(right))
 
 class OperatorNot(OperatorBase):
